@@ -19,6 +19,7 @@ RULE = ('7 pages x 2 lines (ids a, b.v2, c.jpg_x, d.xml, e.logits.1, f, f.b), cr
         'subsets, 600 random double/triple crashes, real-process kills. non-trivial = at least one crash strictly inside the batch; distinct = hash of (subset, crash sequence) Crash points also inside to_pagexml / to_altoxml (assembly of the document text); LMDB form of the crop output; a batch with a decoder stage crashed, resumed and run twice with nothing to do. Folders from the configuration file; glob characters in the output path; a dot-prefixed page id; input PAGE XML naming another image.')
 RULE += ' Round 6: A batch without images; a later run that requests more outputs; page ids a / a-1.'
 RULE += ' Round 7: A second delivery into output folders holding an earlier one (ids differing in letter case, a page without lines).'
+RULE += ' Round 8: Resumes with more worker processes than pages left; line crops requested only by a later run.'
 ASSUMPTIONS = ['a kill happens between two events, an event being an output write or the creation of an output folder (each is atomic); simulated by raising a BaseException subclass instead of the next event, validated against real os._exit kills',
                'outputs are compared modulo Created/LastChange/processingDateTime; logits by unpickled content; JPEGs byte-wise', '"complete page" = all its requested outputs exist when the run starts']
 N = {'quick': 0, 'thorough': 0}      # filled in by scenarios()
